@@ -136,8 +136,9 @@ inline T_Wrap<T_Rhs*, T_Sbx> memset(rlbox_sandbox<T_Sbx>& sandbox,
   static_assert(!std::is_const_v<T_Rhs>, "Destination is const");
 
   auto num_val = detail::unwrap_value(num);
-  detail::dynamic_check(num_val <= sandbox.get_total_memory(),
-                        "Called memset for memory larger than the sandbox");
+  detail::dynamic_check(
+    detail::is_size_within(num_val, sandbox.get_total_memory()),
+    "Called memset for memory larger than the sandbox");
 
   tainted<T_Rhs*, T_Sbx> ptr_tainted = ptr;
   void* dest_start = ptr_tainted.INTERNAL_unverified_safe();
@@ -189,8 +190,9 @@ inline T_Wrap<T_Rhs*, T_Sbx> memcpy(rlbox_sandbox<T_Sbx>& sandbox,
   static_assert(!std::is_const_v<T_Rhs>, "Destination is const");
 
   auto num_val = detail::unwrap_value(num);
-  detail::dynamic_check(num_val <= sandbox.get_total_memory(),
-                        "Called memcpy for memory larger than the sandbox");
+  detail::dynamic_check(
+    detail::is_size_within(num_val, sandbox.get_total_memory()),
+    "Called memcpy for memory larger than the sandbox");
 
   tainted<T_Rhs*, T_Sbx> dest_tainted = dest;
   void* dest_start = dest_tainted.INTERNAL_unverified_safe();
@@ -236,8 +238,9 @@ inline tainted_int_hint memcmp(rlbox_sandbox<T_Sbx>& sandbox,
     "memcmp called on non wrapped type");
 
   auto num_val = detail::unwrap_value(num);
-  detail::dynamic_check(num_val <= sandbox.get_total_memory(),
-                        "Called memcmp for memory larger than the sandbox");
+  detail::dynamic_check(
+    detail::is_size_within(num_val, sandbox.get_total_memory()),
+    "Called memcmp for memory larger than the sandbox");
 
   void* dest_start = dest.INTERNAL_unverified_safe();
   detail::check_range_doesnt_cross_app_sbx_boundary<T_Sbx>(dest_start, num_val);
